@@ -5,6 +5,8 @@
                                        from another goroutine while connected
             (n1 ...)                   a concurrent scenario (see the harness): only the
                                        oracle's violation counters are observed
+            (n2 n<seed>)               the concurrent scenarios once more in a race-enabled build:
+                                       observed (n0) = the race detector reported nothing
      op   = (n0 x<type> n<label>)      SubscribeEvent / SubscribeMessages
             (n1 n<label>)              SubscribeToAll
             (n2 n<k>)                  call the remover returned by the k-th subscription
@@ -74,7 +76,8 @@ Definition run_callbacks (i : val) : val :=
       let ops := as_l (nth_val 2 i) in
       let '(outs, log) := cb_exec 0 reg_empty [] ops in
       VL [VL outs; VL (map (seen_of log) (seq 0 (count_subs ops)))]
-  | _ => VL (repeat (VN 0) n_conc_counters)
+  | 1%N => VL (repeat (VN 0) n_conc_counters)
+  | _ => VL [VN 0]     (* the race detector reports nothing *)
   end.
 
 (* ---- the oracle, from the property text, over the OBSERVED behaviour -------------
@@ -164,5 +167,6 @@ Definition holds_callbacks (i o : val) : bool :=
                  let l := map as_n (as_l (snd p)) in
                  increasing l && list_eqb N.eqb l (named_at (fst p) outs))
               (combine (seq 0 (length seen)) seen)
-  | _ => forallb (fun v => (as_n v =? 0)%N) (as_l o) && (length (as_l o) =? n_conc_counters)
+  | 1%N => forallb (fun v => (as_n v =? 0)%N) (as_l o) && (length (as_l o) =? n_conc_counters)
+  | _ => negb (as_n (nth_val 0 o) =? 1)%N   (* a data race was reported; (n2) = the detector could not be run *)
   end.
